@@ -140,6 +140,28 @@ struct Session {
     }
 };
 
+}  // namespace
+void (*vh::g_api_hook)(const char*) = nullptr;
+namespace {
+
+// (os layer, mode stk) length of the encoding of a copy of the exporter's buffered block / of the file header, on a scratch encoder
+std::size_t scratch_block_len(CDNS::CdnsBlock& b) {
+    if (b.get_item_count() == 0) return 0;
+    CDNS::CdnsBlock copy(b);
+    int fd = memfd_create("scratch", 0);
+    std::size_t n = 0;
+    { CDNS::CdnsEncoder enc(fd, CDNS::CborOutputCompression::NO_COMPRESSION); n = copy.write(enc); }
+    return n;
+}
+std::size_t scratch_header_len(CDNS::FilePreamble& fp) {
+    int fd = memfd_create("scratch", 0);
+    std::size_t n = 0;
+    { CDNS::CdnsEncoder enc(fd, CDNS::CborOutputCompression::NO_COMPRESSION);
+      n = enc.write_array_start(3) + enc.write_textstring("C-DNS") + fp.write(enc) + enc.write_indef_array_start(); }
+    return n;
+}
+void api_note(const std::string& s) { if (vh::g_api_hook) vh::g_api_hook(s.c_str()); }
+
 std::string run_session(const std::string& line, int line_no) {
     Session S;
     S.line_no = line_no;
@@ -152,6 +174,7 @@ std::string run_session(const std::string& line, int line_no) {
         std::string op = c == std::string::npos ? tok : tok.substr(0, c);
         std::string arg = c == std::string::npos ? "" : tok.substr(c + 1);
         std::string r;
+        if (vh::g_api_hook && (op == "Q" || op == "A" || op == "M" || op == "W" || op == "R" || op == "D")) vh::g_api_hook(tok.c_str());
         try {
             if (op == "FP") {
                 rec::KV kv = rec::parse_kv(arg);
@@ -176,6 +199,7 @@ std::string run_session(const std::string& line, int line_no) {
                 S.outs.push_back(o);
                 if (o.named) S.exp = std::make_unique<CDNS::CdnsExporter>(S.fp, name, S.comp);
                 else S.exp = std::make_unique<CDNS::CdnsExporter>(S.fp, fd, S.comp);
+                if (vh::g_api_hook) api_note("=H" + std::to_string(scratch_header_len(S.exp->m_file_preamble)));
                 continue;
             } else if (op == "Q" || op == "A" || op == "M") {
                 std::size_t sc = arg.find(';');
@@ -184,11 +208,19 @@ std::string run_session(const std::string& line, int line_no) {
                 if (sc != std::string::npos) st = rec::parse_stats(rec::parse_kv(arg.substr(sc + 1)));
                 rec::KV kv = rec::parse_kv(body);
                 std::size_t w = 0;
-                if (op == "Q") w = S.exp->buffer_qr(rec::parse_qr(kv), st);
-                else if (op == "A") w = S.exp->buffer_aec(rec::parse_aec(kv), st);
-                else w = S.exp->buffer_mm(rec::parse_mm(kv), st);
+                const bool first = vh::g_api_hook && S.exp->m_blocks_written == 0;
+                try {
+                    if (op == "Q") w = S.exp->buffer_qr(rec::parse_qr(kv), st);
+                    else if (op == "A") w = S.exp->buffer_aec(rec::parse_aec(kv), st);
+                    else w = S.exp->buffer_mm(rec::parse_mm(kv), st);
+                } catch (...) {
+                    if (vh::g_api_hook) api_note("=L" + std::to_string(scratch_block_len(S.exp->m_block)));     // the block it tried to flush
+                    throw;
+                }
+                if (vh::g_api_hook && w > 0) api_note("=L" + std::to_string(w - (first ? scratch_header_len(S.exp->m_file_preamble) : 0)));
                 r = std::to_string(w);
             } else if (op == "W") {
+                if (vh::g_api_hook) api_note("=L" + std::to_string(scratch_block_len(S.exp->m_block)));
                 r = std::to_string(S.exp->write_block());
             } else if (op == "R") {
                 auto a = vh::split(arg, ':');
@@ -214,6 +246,7 @@ std::string run_session(const std::string& line, int line_no) {
                                                   : S.exp->rotate_output(-1, a[1] == "1");
                     r = std::to_string(w);
                 } else {
+                if (vh::g_api_hook) api_note("=L" + std::to_string(scratch_block_len(S.exp->m_block)));
                 Output o = S.new_target(a[0] == "nm", fd, name);
                 S.outs.push_back(o);
                 std::size_t w = o.named ? S.exp->rotate_output(name, a[1] == "1") : S.exp->rotate_output(fd, a[1] == "1");
